@@ -169,9 +169,9 @@ def where_cls(ex, cls, meth):
     ci = ex.classes.get(cls)
     if ci is None:
         raise AnalysisError('anchor vanished: extrapolation.%s' % cls)
-    r = ci.lookup(meth)
+    r = ci.lookup(meth) or ci.lookup('__call__')
     if r is None:
-        raise AnalysisError('anchor vanished: extrapolation.%s.%s' % (cls, meth))
+        return ex.where(ci.node)            # only the place a report points to: the class itself will do
     return ex.where(r[1])
 
 
@@ -445,54 +445,64 @@ def dea_floor_all_outcomes(ctx, ex):
 
 def dea_cap(ctx, ex):
     """Index bound on all guard outcomes: feed many terms, explore every outcome of the guards (per site),
-    record the index n stored by __call__ and every subscript used on epstab."""
+    record the fill index that __call__ stores between calls and every subscript used on the table."""
     rep = ctx.rep
     where = where_cls(ex, 'Dea', '_dea')
+    # the fill index: the integer state that counts the terms stored so far during the first two calls of a roomy table
+    # (found by what it does, no attribute name is used)
+    from ..dvrun import DVSession
+    from ..dv import DV
+    probe = DVSession(ctx.repo, None).interp.get_global('extrapolation', 'Dea')(limexp=9)
+    before = []
+    for k in range(2):
+        probe(DV({('s', k)}, 'f'))
+        before.append({a: v for a, v in probe.attrs.items() if isinstance(v, int) and not isinstance(v, bool)})
+    fill = [a for a in before[1] if before[0].get(a) == 1 and before[1].get(a) == 2]
+    tables = [a for a, v in probe.attrs.items() if isinstance(v, Arr) and v.ndim == 1]
+    if len(fill) != 1 or len(tables) != 1:
+        raise AnalysisError('anchor vanished: the fill index / the table of Dea (candidates %r, %d arrays)' % (fill, len(tables)))
+    fill, table = fill[0], tables[0]
     for limexp in (3, 5) if ctx.tier == 'quick' else (3, 4, 5, 7):
         nterms = 2 * limexp + 6
         exr = Explorer(max_paths=512, by_value=False)
 
         def body(oracle, limexp=limexp, nterms=nterms):
             # only the index arithmetic matters here: the terms are opaque data values
-            from ..dvrun import DVSession
-            from ..dv import DV
             sess = DVSession(ctx.repo, oracle)
             I = sess.interp
             D = I.get_global('extrapolation', 'Dea')
             obj = D(limexp=limexp)
-            eff = obj.attrs['_limexp']
             trace = []
-            calls = []
-            I.call_trace = calls
-            try:
-                for k in range(nterms):
-                    obj(DV({('s', k)}, 'f'))
-                    trace.append(obj.attrs['_n'])
-            finally:
-                I.call_trace = None
-                n_dea = sum(1 for c in calls if c[0] == 'enter' and c[1].endswith('Dea._dea'))
-                n_shift = sum(1 for c in calls if c[0] == 'enter' and c[1].endswith('Dea._shift_table'))
-                skipped.append(n_dea - n_shift)        # extrapolation steps that returned without shifting / capping the table
-            return eff, trace, obj.attrs['epstab'].shape[0]
-        skipped = []
+            for k in range(nterms):
+                obj(DV({('s', k)}, 'f'))
+                trace.append(obj.attrs[fill])
+            return trace, obj.attrs[table].shape[0]
         exr.run(body)
         raised = []
         over = []
-        unshifted = {}
-        for (decisions, res, exc), sk in zip(exr.paths, skipped):
+        offending = []
+        for decisions, res, exc in exr.paths:
             path = ', '.join('%s=%s' % (d[1][:28], d[0]) for d in decisions)
-            unshifted[path] = sk
             if exc is not None:
                 raised.append({'path': path, 'raises': exc.exc_name, 'message': exc.msg[:60]})
+                offending.append(decisions)
                 continue
-            eff, trace, size = res
+            trace, size = res
             # at the next entry epstab[n + 2] is written: it must stay below the res3la cells (size - 3)
             if any(n + 2 > size - 4 for n in trace):
                 over.append({'path': path, 'indices': trace[:14], 'table_cells': size - 3})
-        # which violation it is: on every offending path some extrapolation step returned early (all table entries agreed to
-        # machine accuracy) without passing the shift / cap of the table - judged by the calls made, not by source text
+                offending.append(decisions)
+        # which violation it is: on every offending path the guard "all the entries of the step agreed to machine accuracy"
+        # (recognised by what it computes: it holds exactly when every one of its tolerance comparisons holds) was taken -
+        # the exit that returns without passing the shift / cap of the table
+        def took_all_agreed(decisions):
+            for d in decisions:
+                info = exr.site_info.get((d[1], d[2]))
+                if info is not None and len(info) > 2 and info[2][0] == ('all' if d[0] is True else 'not-all'):
+                    return True
+            return False
         key = 'dea-cap'
-        if (raised or over) and all(unshifted.get(r['path'], 0) > 0 for r in raised + over):
+        if offending and all(took_all_agreed(d) for d in offending):
             key = 'dea-cap: index not capped on the all_converged path'
         rep.check(not raised and not over, 'R-DEA-CAP', 'extrapolation.Dea._dea', where,
                   {'limexp': limexp, 'terms_fed': nterms, 'paths': len(exr.paths), 'raised': raised[:2],
